@@ -36,13 +36,49 @@ def hb_query(q, prop, seed, outdir):
         r.update(verdict='ERROR', error='z3 reports a race that ThreadSanitizer did not reproduce on the real pool (%s)' % (rep or '')[:200])
     return r
 
-EXPLANATION = ('(c) publish/consume handshake of run_tasks / worker loop / was_empty: memory orders read from the LLVM IR of the real code, happens-before decided by z3 over a 10-event skeleton; counter-example confirmed by ThreadSanitizer on the real pool. ' +
+EXPLANATION = ('(b) pause/resume/run_blocks protocol: no lost wake-up, no lost block, bounded interleaving model in z3 built on the synchronisation skeleton extracted from the IR; counter-example schedules confirmed by a native stress loop with watchdog. (c) publish/consume handshake of run_tasks / worker loop / was_empty: memory orders read from the LLVM IR of the real code, happens-before decided by z3 over a 10-event skeleton; counter-example confirmed by ThreadSanitizer on the real pool. ' +
                '(a) thread_pool<size_t>::blocks (constructor, start, end, num_blocks) executed symbolically: range start, length and '
                'min block size are symbolic, pool size concrete per query')
 ASSUMPTIONS = ['part (c): the event skeleton of one round (who writes/reads p_jobs, job closures, results, in which order around the four flag accesses) is written by hand in tools/pool_hb.py and its four atomic accesses are located in the IR by source text; a change of the skeleton makes the extraction fail (check error), not pass',
-               'part (b) (lost wake-ups, deadlock over pause/resume/resize/stop) is NOT decided',
+               'part (b): bounded interleaving model (z3) of pause(); resume(); run_blocks() with W = 1, 2 workers; mutex / condition variable / counter / flag semantics are modelled by hand, the order of the synchronisation calls in resume(), pause(), the pause job and the worker loop is read from the IR (skeleton mismatch -> check error); resize(), stop(), more than one pause/resume cycle, W > 2 and spurious wake-ups are outside the model',
                'part (a): the block partition arithmetic; range length <= RANGE, min_size <= MINMAX, first <= 10^6 (no wrap-around of first+len)',
                'pool size >= 1 (the library never builds a pool of size 0 before run_blocks)']
+
+
+def protocol_query(q, prop, seed, outdir):
+    wd = os.path.join(fsv.BUILD, 'pool_protocol')
+    os.makedirs(wd, exist_ok=True)
+    rc, o, e, w, _ = fsv.sh(['python3-vt', os.path.join(fsv.VERIF, 'tools', 'pool_protocol.py'), wd], timeout=900, env=dict(os.environ, FSV_REPO=fsv.REPO))
+    if rc != 0:
+        return dict(verdict='ERROR', error='pool_protocol failed (skeleton mismatch or tool error): ' + (e or o)[-1500:])
+    js = json.loads(o.strip().split('\n')[-1])
+    res = js['results']
+    bad = [(k, kind) for k, v in res.items() for kind in ('deadlock', 'lost_job') if v[kind] != 'unsat']
+    vac = [k for k, v in res.items() if v['witness_end_reachable'] != 'sat']
+    r = dict(functions=['fastscapelib::thread_pool<size_t>::pause', 'fastscapelib::thread_pool<size_t>::resume', 'fastscapelib::thread_pool<size_t>::run_tasks',
+                        'fastscapelib::thread_pool<size_t>::wait', 'fastscapelib::thread_pool<size_t>::init_pause_jobs()::lambda', 'fastscapelib::thread_pool<size_t>::start()::lambda'],
+             cbmc=dict(status='z3 ' + str({k: (v['deadlock'], v['lost_job']) for k, v in res.items()}), solver='z3 (python API), bounded interleaving model', solver_s=sum(v['z3_s'] for v in res.values()),
+                       vccs=2 * len(res), remaining=2 * len(res), props=2 * len(res)),
+             witness=dict(reachable=not vac, status='normal completion reachable in the model: %s' % {k: v['witness_end_reachable'] for k, v in res.items()}),
+             bounds=dict(q.bounds, skeleton_from_IR=js['skeleton'], sync_events_in_IR=js['n_events'], steps={k: v['steps'] for k, v in res.items()}))
+    if vac:
+        return dict(r, verdict='ERROR', error='model vacuous: the caller cannot finish in %s' % vac)
+    if not bad:
+        r['verdict'] = 'PASS'
+        return r
+    cex = os.path.join(outdir, q.qid + '.cex')
+    tr = {k: (v.get('deadlock_trace') or v.get('lost_job_trace')) for k, v in res.items()}
+    open(cex, 'w').write(json.dumps(dict(failing=bad, skeleton=js['skeleton'], traces=tr), indent=1) + '\n')
+    sys.path.insert(0, os.path.join(fsv.VERIF, 'tools'))
+    import pool_protocol
+    ok, rep = pool_protocol.stress_replay(fsv.REPO, wd)
+    r.update(cex=cex, custom='pool_protocol', cex_description='pause/resume/run_blocks protocol: %s reachable (skeleton %s)' % (bad, js['skeleton']),
+             cex_inputs=dict(failing=str(bad), last_states=str((tr.get('W1') or [])[-3:])), replay_out=(rep or '')[-800:], replay_rc=1 if ok else 0)
+    if ok:
+        r['verdict'] = 'CEX'
+    else:
+        r.update(verdict='ERROR', error='the model reports %s but the native stress loop on the real pool did not hang or lose a job in 3 x 20000 rounds (timing dependent): %s' % (bad, (rep or '')[:200]))
+    return r
 
 
 def queries(tier, kfs):
@@ -53,6 +89,9 @@ def queries(tier, kfs):
         qs.append(Query('blocks.pool%d' % p, 'pool_blocks.cpp', 'c11_blocks.c', {}, dict(POOL=p, RANGE=rng, MINMAX=mm), unwind=18,
                         solver='cadical', safety=True, timeout=900 if tier == 'quick' else 7200, shim=False,
                         bounds=dict(pool_size=p, range_len='1..%d' % rng, min_size='0..%d' % mm, first='0..10^6')))
+    qs.append(CustomQuery('protocol.pause_resume_run_blocks', protocol_query,
+                          bounds=dict(scenario='caller: pause(); resume(); run_blocks()  workers: worker loop', workers='1 and 2', scheduler_steps='40 / 54',
+                                      properties='no deadlock (lost wake-up), every block executed exactly once')))
     qs.append(CustomQuery('handshake.happens_before', hb_query,
                           bounds=dict(round='one run_blocks round: publish job i, worker i takes it, runs it, clears the flag, caller observes', workers='any (per-worker flag)', events=10)))
     return qs
